@@ -4,6 +4,7 @@ PROPS = {
     "C05": {
         "modules": ["BioSeq.Props.C05"],
         "witness": "Witness/C05.lean",
+        "witness_modules": ["BioSeq.Checks.C05"],
         "exhaustive": True,
         "rule": "finite domain: all 256 bytes as ASCII input and as bit patterns x all symbols x 7 codecs x 2 profiles, "
                 "extracted from the compiled crate and decided by the Lean kernel over the whole table; op lines additionally "
